@@ -18,7 +18,7 @@ EXPLANATION = ('(R18.1) for every fallible event (filesystem primitive, write/re
                'failed-flush case; unwrap/expect call sites on io::Result are inventoried; (R18.5) every Ok exit of the publish functions '
                'and cache-directory inserts is dominated by the removal of the source name (= R11.1), so a reported success leaves no '
                'staged file behind. Behaviour per errno at run time is not decided.')
-FLOORS = {'R18.1': 100, 'R18.2': 3, 'R18.3': 1, 'R18.4': 3, 'R18.5': 4}
+FLOORS = {'R18.1': 100, 'R18.2': 3, 'R18.3': 1, 'R18.4': 3, 'R18.5': 4, 'R18.6': 4}
 FIXTURE_RULES = ['R18.3']
 
 # enumerated best-effort sites: (entry regex, site regex, which escape kind is tolerated, reason)
@@ -219,9 +219,16 @@ def r18_5(ctx):
     return [inst('R18.5', i['key'].split('|', 1)[1], i['ok'], i['detail'], path=i.get('path') or []) for i in c11.r11_1(ctx)]
 
 
+def r18_6(ctx):
+    """a reported success leaves the entry in its valid published state: every publish is dominated by the *successful*
+    stamping and write-bit stripping of the very file it publishes, on every attempt including retries (= R02.1)."""
+    from rules import c02
+    return [inst('R18.6', i['key'].split('|', 1)[1], i['ok'], i['detail'], path=i.get('path') or []) for i in c02.r02_1(ctx)]
+
+
 def run(ctx):
     from runner import collect
-    return collect(ctx, r18_1, r18_2, r18_3, r18_4, r18_5)
+    return collect(ctx, r18_1, r18_2, r18_3, r18_4, r18_5, r18_6)
 
 
 def run_fixture(fctx):
